@@ -262,6 +262,9 @@ class SpecEval:
                 args = [self.ev(a) for a in n.args]
                 sq = self.seq(args[0])
                 f = fold_fn(name, fd)
+                # base case of the recursion, for every sequence: name(s, 0, a) = a
+                s0, a0 = z3.Const("s!fold0", z3.SeqSort(sort_of(fd["elem"]))), z3.Const("a!fold0", sort_of(fd["acc"]))
+                GLOBAL_AXIOMS["fold0_" + name] = z3.ForAll([s0, a0], f(s0, z3.IntVal(0), a0) == a0, patterns=[f(s0, z3.IntVal(0), a0)])
                 st_ = ops.seq_term(sq, fd["elem"]) if sq.t is None else sq.t
                 return V(fd["acc"], f(st_, args[1].t, coerce(unopt(args[2]), fd["acc"]).t))
             if name in SPECFUNS:
@@ -885,6 +888,13 @@ def _node_set(name):
 
 SPECFUNS["node_undeclared"] = _node_set("node_undeclared")
 SPECFUNS["node_declared"] = _node_set("node_declared")
+
+
+@specfun("any_isinstance")
+def _any_isinstance(se, a, kw):
+    """isinstance(x, <classes>) of a dynamically typed value, as the engine models it: any_isinstance(x, 'A_B') for (A, B)"""
+    nm = z3.simplify(a[1].t).as_string()
+    return vbool(z3.And(a[0].t != 0, ops.UF("any_isinstance_" + nm, z3.IntSort(), z3.BoolSort())(a[0].t)))
 
 
 @specfun("the")
